@@ -164,7 +164,16 @@ func init() {
 		t, _ := boolTerm(args[1])
 		p := fr.i.path
 		if !t.IsFalse() {
-			p.regions = append(p.regions, region{argString(fr, args[0]), t})
+			p.regions = append(p.regions, region{id: argString(fr, args[0]), cond: t})
+		}
+		return nil
+	}
+	// symxKnownFor(id, label string, region bool): a known-finding region scoped to one assertion label
+	harnessAPI["symxKnownFor"] = func(fr *frame, args []value) value {
+		t, _ := boolTerm(args[2])
+		p := fr.i.path
+		if !t.IsFalse() {
+			p.regions = append(p.regions, region{id: argString(fr, args[0]), cond: t, label: argString(fr, args[1])})
 		}
 		return nil
 	}
